@@ -118,6 +118,8 @@ class ListV(object):
 
 
 def expr_of(v):
+    if isinstance(v, ast.AST):
+        return v
     if isinstance(v, Sym):
         return v.expr
     if isinstance(v, NoneV):
